@@ -27,7 +27,9 @@ READY = True
 def check(v, tier, opts):
     v.functions.update(["all ts_* entry points of RollingValidFeature, RollingFeature, RollingValidCmp, RollingValidNorm, RollingValidBinary, "
                         "RollingValidReg, RollingValidRegBinary"])
-    v.bounds.append("Engine K: N in 0..=3 quick, 4 thorough; w in 1..=N+2; min_periods symbolic incl. None; |x|<=1000")
+    v.bounds.append("Engine K: N in 0..=3 quick, 4 thorough; w in 1..=N+2; min_periods symbolic incl. None; |x|<=1000; empty input also on the "
+                    "backends without a fast path (plain view, VecDeque) for the extrema / rank / normalisation family; null-flag law of "
+                    "ts_vmin / ts_vmax / ts_vargmin / ts_vargmax (both directions, N = 3) and ts_vminmaxnorm (null below min_periods, N = 4)")
     v.bounds.append("Engine M: L in {0,1,2,4} quick, 0..=5 thorough; w in 1..=L+2; min_periods in {omitted} U 0..=w; null masks (pairs sampled for two series)")
     v.stubs.update(["f64::sqrt / f64::powi / f64::mul_add -> any f64 (length harnesses only)",
                     "AggValidBasic::{vmean,vstd,vskew} -> drain + any f64 (ts_vregx_resid_* length harnesses only)"])
